@@ -297,7 +297,9 @@ func ruleR36(c *Ctx) {
 				f := m.staticCallee(x)
 				if f != nil && f.Pkg() == m.Pkg {
 					tok := "call " + name
-					if sig, ok := f.Type().(*types.Signature); ok && sig.Recv() != nil {
+					if m.isRestoreCall(x) {
+						tok = "call RESTORE"
+					} else if sig, ok := f.Type().(*types.Signature); ok && sig.Recv() != nil {
 						if n := namedOf(sig.Recv().Type()); n != nil && (m.isLeafType(n) || m.treeByNamed(n) != nil) {
 							tok = "call LEAF/TREE." + f.Name()
 						} else if n != nil && m.kindByStruct(n) != nil {
